@@ -182,18 +182,29 @@ def gen_doc_case(rnd, path):
         attrs = gen_attrs(rnd, APPS, APP_PATTERNS, hostile)
         progs = [[gen_attrs(rnd, PROCS, PRG_PATTERNS, hostile), gen_children(rnd, valid, 'p')] for _ in range(rnd.randint(0, 5))]
         items.append(['app', attrs, gen_children(rnd, valid, 'a'), progs])
+    sign_app = None
+    if rnd.random() < 0.4:
+        # an application whose homogeneous programs carry a sign (the documented use of '#' / '@')
+        sign_app = rnd.choice(APPS)
+        progs = [[{'pattern': rnd.choice(['srv_', r'srv_0\d', 'srv_0[12]', r'srv_\d+'])},
+                  [['identifiers', rnd.choice(['#', '@', '#,n1,n2', '@,n2', '#,n3,n2,n1', '@,n3,n1', '#,*', '#,n9', '@,n9,n2', '#,st1', '#,al1', '@,al1'])],
+                   ['start_sequence', '1']]]]
+        if rnd.random() < 0.3: progs.append([{'name': 'srv_03'}, gen_children(rnd, valid, 'p')])
+        items.append(['app', {'name': sign_app}, gen_children(rnd, valid, 'a') if rnd.random() < 0.5 else [], progs])
     rnd.shuffle(items)
     split = rnd.randint(0, len(items)) if rnd.random() < 0.2 else None
     queries = [['qapp', a] for a in APPS] + [['qprog', a, p] for a in APPS for p in PROCS]
-    for _ in range(2):
-        a = rnd.choice(APPS)
+    for g in range(2):
+        a = sign_app if sign_app and (g == 0 or rnd.random() < 0.5) else rnd.choice(APPS)
         members = [[f'srv_0{k}', k - 1] for k in range(1, 5)]
         if rnd.random() < 0.25: members.append(['worker', rnd.randint(0, 5)])
         if rnd.random() < 0.3: rnd.shuffle(members)
         k = rnd.randint(1, len(members)) if rnd.random() < 0.35 else len(members)
         queries.append(['group', a, members[:k]])
         if k < len(members): queries.append(['groupadd', a, members[k:]])
-    return {'kind': 'doc', 'path': path, 'items': items, 'split': split, 'mapper': gen_mapper(rnd), 'queries': queries}
+    case = {'kind': 'doc', 'path': path, 'items': items, 'split': split, 'mapper': gen_mapper(rnd), 'queries': queries}
+    if rnd.random() < 0.01: case['malformed'] = True      # not well-formed: must be refused by both parsers
+    return case
 
 
 # ------------------------------------------------------------------------------------------------ XML writing
@@ -224,7 +235,8 @@ def write_files(case, workdir):
     for k, part in enumerate(parts):
         p = os.path.join(workdir, f'rules{k}.xml')
         with open(p, 'w', encoding='utf-8') as f:
-            f.write('<?xml version="1.0" encoding="UTF-8" standalone="no"?>\n<root>\n' + '\n'.join(xml_item(i) for i in part) + '\n</root>\n')
+            f.write('<?xml version="1.0" encoding="UTF-8" standalone="no"?>\n<root>\n' + '\n'.join(xml_item(i) for i in part)
+                    + ('\n<root>\n' if case.get('malformed') else '\n</root>\n'))
         files.append(p)
     return files
 
